@@ -196,6 +196,23 @@ def run_impl(ctx, cases, tag='cases'):
 # ------------------------------------------------- oracle (the property, Python)
 def oracle(c, r):
     bad = []
+    if c['stream'] == 'tables':
+        if 'error' in r:
+            return [('raised', r['error'])]
+        # independent of femio's tables: each of the eight types must be exported under the VTK
+        # name of the S-definition and only tet2 may be re-ordered, by the edge-based order
+        tbl = dict(map(tuple, r['table']))
+        for t, vt in VTK_NAME.items():
+            if tbl.get(t) != vt:
+                bad.append(('type-table', {'type': t, 'expected': vt, 'table': tbl.get(t)}))
+        for t, row, out in r['export']:
+            want = list(row)
+            if t == 'tet2':
+                want = list(row[:4]) + [row[4 + [set(x) for x in FEMIO_TET2_EDGES].index(set(e))]
+                                        for e in VTK_TET10_EDGES]
+            if out != want:
+                bad.append(('export-node-order', {'type': t, 'row': row, 'exported': out}))
+        return bad[:1]
     if c['stream'] == 'tet2perm':
         if 'error' in r:
             return [('raised', r['error'])]
@@ -307,6 +324,15 @@ def coq_mesh(held):
 
 
 def coq_item(c, r):
+    if c['stream'] == 'tables':
+        if 'error' in r:
+            return 'false'
+        sp = lambda kv: f'({lib.coq_str(kv[0])}, {lib.coq_str(kv[1])})'                      # noqa
+        tr = lambda x: f'({lib.coq_str(x[0])}, {zl(x[1])}, {zl(x[2])})'                      # noqa
+        return ('chk_tables ' + lib.coq_list([sp(kv) for kv in r['table']]) + ' ' +
+                lib.coq_list([lib.coq_str(x) for x in r['element_types']]) + ' ' +
+                lib.coq_list([tr(x) for x in r['export']]) + ' ' + lib.coq_list([tr(x) for x in r['import']]) +
+                ' ' + lib.coq_list([f"({k}%nat, {'true' if b else 'false'})" for k, b in r['ranks']]))
     if c['stream'] == 'tet2perm':
         if 'error' in r:
             return 'false'
@@ -397,7 +423,7 @@ def main(ctx):
     ctx.assumptions += ['node ids distinct; element blocks of the eight types with the right arity',
                         'meshes carrying elemental data are excluded: meshio 5 rejects femio\'s '
                         'meshio-3 style cell_data (environment incompatibility, not the property)']
-    tie_ok, unread = True, {}
+    tie_ok, unread, changed = True, {}, []
     try:
         values, consumed, unread = c06_tables.read_regions(str(lib.REPO))
         baseline = c06_tables.load_baseline()
@@ -408,8 +434,10 @@ def main(ctx):
         if not unread:
             flat = c06_tables.combine(values, {}, {})
             ctx.notes['translation_equals_baseline'] = all(
-                json.loads(json.dumps(flat[k])) == baseline[k] for k in baseline)
+                json.loads(json.dumps(flat[k])) == baseline[k] for k in baseline if k != 'watched')
         lib.write_if_changed(lib.COQ / PID / 'gen' / 'VtkTables.v', c06_tables.emit(t, unread))
+        # bodies the hand model mirrors (ids2indices, id2index, values_of, ...): changed => search deeper
+        changed = c06_tables.changed_bodies(str(lib.REPO), baseline)
     except (c06_tables.TranslateError, SyntaxError, KeyError, AttributeError, TypeError,
             ValueError, IndexError, OSError) as e:
         tie_ok = False
@@ -417,10 +445,12 @@ def main(ctx):
         ctx.notes['translator_error'] = f'{type(e).__name__}: {e}'
     # A region the translator cannot read is not a violation by itself: its values come from the
     # committed baseline (T degrades to H) and the correspondence is widened.
-    degraded = tie_ok and bool(unread)
+    degraded = tie_ok and bool(unread or changed)
     if degraded:
-        ctx.log('translator could not read:', unread, '-> baseline model + widened correspondence')
+        ctx.log('translator could not read:', unread, '; changed bodies:', changed,
+                '-> baseline model + widened correspondence')
         ctx.notes['translator_unread_regions'] = unread
+        ctx.notes['changed_mirrored_bodies'] = changed
     proof_ok, corr_built = False, False
     if tie_ok:
         proof_ok, log = ctx.build_props(f'{PID}/Props.v', extra_targets=[f'{PID}/Corr.vo'])
@@ -456,6 +486,10 @@ def main(ctx):
         cases.append({'id': len(cases), 'stream': 'tet2perm', 'id_mode': 'n/a', 'blocks': [],
                       'variables': [],
                       'rows': [ctx.rng.sample(range(1, 1000), 10) for _ in range(2)]})
+    # translator validation: the generated tables / permutations / rank bound, evaluated in Coq,
+    # against the Python objects and private functions of the tree under test at run time
+    cases.append({'id': len(cases), 'stream': 'tables', 'id_mode': 'n/a', 'blocks': [], 'variables': [],
+                  'arity': ARITY, 'vtk_arity': {VTK_NAME[t]: a for t, a in ARITY.items()}})
     res = run_impl(ctx, cases)
     n_bad = 0
     per_what = {}
@@ -533,7 +567,9 @@ def main(ctx):
                           what='VTK file not reproduced by the model')
     if degraded:
         n_dis = ctx.corr.get('disagreements') if corr_built and ctx.corr else None
-        why = '; '.join(f'{k}: {v}' for k, v in sorted(unread.items()))
+        why = '; '.join(f'{k}: {v}' for k, v in sorted(unread.items())) or 'nothing'
+        if changed:
+            why += '; bodies mirrored by the hand model changed: ' + ', '.join(changed)
         ctx.notes['tie'] = (f'H (translator could not read {why}; baseline model + widened '
                             f'correspondence, {len(cases)} cases, {n_dis} disagreements, '
                             f'{sum(per_what.values())} oracle failures)')
@@ -561,7 +597,7 @@ def main(ctx):
 def replay(path):
     rp = json.loads(Path(path).read_text())
     c = dict(rp['case'])
-    if 'node_ids' not in c:
+    if 'node_ids' not in c and c.get('stream') not in ('tables', 'tet2perm'):
         print('nothing to replay on the implementation:', json.dumps(rp, indent=1)[:2000])
         return 1
     ctx = lib.Ctx(PID, 'quick')
